@@ -106,6 +106,10 @@ func Check(res *Result) []Violation {
 	if sim.Invalid != "" {
 		return c.out
 	}
+	if sim.OverBudget && res.AllReturned {
+		c.add("C06", "leak:still-running", "every directive has returned, yet scheduler goroutines keep running past the step budget %d (fair scheduling since step %d); live: %s", res.D.Budget, res.D.FairAfter, strings.Join(res.StuckDesc, "; "))
+		return c.out
+	}
 	if sim.OverBudget {
 		c.add("C05", "livelock", "step budget %d exceeded (fair scheduling since step %d); live: %s", res.D.Budget, res.D.FairAfter, strings.Join(res.StuckDesc, "; "))
 		return c.out
